@@ -39,6 +39,7 @@ def run(facts, rep, tier):
     rep.rule("R01.4", "no lock is requested while a guard of the same lock is alive (no self-deadlock)", "P")
     rep.rule("R01.2", "call graph acyclic; every reachable loop iterates a finite source", "P")
     rep.rule("R01.3", "file source: loop ends only at EOF / I/O error; main returns the thread's result", "P")
+    rep.rule("R01.5", "no input is thrown away unseen: nothing on the reader thread skips bytes or lines of the source", "N")
 
     out = k2_results(facts, tier)
     results = out["results"]
@@ -92,6 +93,7 @@ def run(facts, rep, tier):
     _termination(facts, rep)
     _eof(facts, rep)
     _locks(facts, rep)
+    _discards(facts, rep)
     if e2_broken and not rep.findings:
         raise Broken(e2_broken[0])
     for m in sorted(set(x.split(": ", 1)[-1] for x in e2_broken))[:3]:
@@ -297,6 +299,44 @@ def _termination(facts, rep):
         rep.oblige(ok, "tcp dispatch")
         if not ok:
             rep.add(Finding("R01.2", "%s : TCP loop not guarded by tcp.is_empty()" % r, "the endless reconnect loop is not confined to the --tcp source", b.loc()))
+
+
+# calls that drop input without showing it to the line gate: what they drop may be a well-formed line
+DISCARDING_IO = ("std::io::BufRead::skip_until", "std::io::Seek::seek", "std::io::Seek::seek_relative", "std::io::Seek::rewind",
+                 "std::io::BufReader::<R>::seek_relative")
+DISCARDING_ITER = ("skip", "step_by", "nth", "skip_while", "filter", "last", "advance_by", "nth_back")
+LINE_ITERS = ("std::io::Split<", "std::io::Lines<")
+
+
+def _discards(facts, rep):
+    """R01.5: 'every well-formed line after a hostile one is still processed' - on the reader thread nothing may skip part of
+    the source: no skip_until / seek on the reader, no skipping adaptor on the line iterator.  (Ending the stream at an I/O
+    error - map_while(Result::ok) - is R01.3's business; splitting an over-long line is C13's.)"""
+    cg = call_graph(facts)
+    roots = [b.name for b in facts.bodies.values() if b.kind == "closure" and b.parent and b.parent.endswith("spawn_reader_thread")]
+    reach = reachable_bodies(facts, roots, cg)
+    n = 0
+    for name in sorted(reach):
+        b = facts.bodies[name]
+        for bi, t in b.calls():
+            c = t["callee"]
+            p = c.get("path") or ""
+            self_ty = " ".join([(c.get("arg0_ty") or {}).get("s", "")] + list(c.get("generic_args") or []) + [c.get("instance") or ""])
+            on_source = p.startswith("std::io::") or any(x in self_ty for x in LINE_ITERS)
+            if not on_source:
+                continue
+            n += 1
+            bad = None
+            if p in DISCARDING_IO:
+                bad = "%s discards input up to a delimiter / position without looking at it" % p
+            elif any(x in self_ty for x in LINE_ITERS) and p.startswith("std::iter::Iterator::") and p.split("::")[-1] in DISCARDING_ITER:
+                bad = "%s on the line iterator skips lines" % p
+            rep.oblige(bad is None, ("discard", name, bi))
+            if bad:
+                rep.add(Finding("R01.5", "%s : %s" % (name, p.split("::")[-1]),
+                                "%s: %s - a well-formed line that follows (or is part of) what is dropped is never processed" % (name, bad),
+                                span_loc(t.get("span")) if t.get("span") else b.loc()))
+    rep.instances("R01.5", n, floor=3, what="calls on the input source / line iterator on the reader thread")
 
 
 def _locks(facts, rep):
